@@ -197,4 +197,54 @@ example : keysNodup [⟨1, 2, 5⟩, ⟨0, 0, 1⟩, ⟨0, 3, 2⟩] := by unfold k
 example : arrayLoader [[1, 0, 2], [9, 0, 3], [0, 0, 4]] 2 = [[⟨0, 0, 1⟩, ⟨0, 2, 2⟩, ⟨1, 2, 3⟩], [⟨2, 2, 4⟩]] := by
   decide
 
+/-! ### integer value columns (the "value dtypes" of the quantifier) -/
+
+/-- the column stores a value unchanged iff the value fits its dtype: an unchecked write of anything else
+stores a DIFFERENT value (saturation) -/
+theorem clipInt_eq_iff (signed : Bool) (bits : Nat) (v : Int) :
+    clipInt signed bits v = v ↔ fitsInt signed bits v = true := by
+  simp only [clipInt, fitsInt, Bool.and_eq_true, decide_eq_true_eq]
+  constructor
+  · intro h
+    by_cases h1 : v < dtypeLo signed bits
+    · rw [if_pos h1] at h; omega
+    · rw [if_neg h1] at h
+      by_cases h2 : dtypeHi signed bits < v
+      · rw [if_pos h2] at h; omega
+      · omega
+  · intro ⟨h1, h2⟩
+    rw [if_neg (by omega), if_neg (by omega)]
+
+/-- **value_roundtrip_or_refusal.**  The checked write either refuses, or stores exactly the given values;
+it refuses exactly when an unchecked write would have altered some value. -/
+theorem checkedWrite_exact (signed : Bool) (bits : Nat) (vs w : List Int)
+    (h : checkedWrite signed bits vs = some w) : w = vs := by
+  unfold checkedWrite at h
+  split at h
+  · exact (Option.some.inj h).symm
+  · cases h
+
+theorem checkedWrite_refuses_iff (signed : Bool) (bits : Nat) (vs : List Int) :
+    checkedWrite signed bits vs = none ↔ vs.map (clipInt signed bits) ≠ vs := by
+  unfold checkedWrite
+  have key : vs.all (fitsInt signed bits) = true ↔ vs.map (clipInt signed bits) = vs := by
+    induction vs with
+    | nil => simp
+    | cons v rest ih =>
+      simp only [List.all_cons, Bool.and_eq_true, List.map_cons, List.cons.injEq]
+      rw [ih, clipInt_eq_iff]
+  by_cases hall : vs.all (fitsInt signed bits) = true
+  · rw [if_pos hall]
+    constructor
+    · intro h; cases h
+    · intro h; exact absurd (key.mp hall) h
+  · rw [if_neg hall]
+    constructor
+    · intro _ h; exact hall (key.mpr h)
+    · intro _; rfl
+
+/-- non-vacuity: 3 000 000 000 fits uint32 and not int32 (where it would be stored as 2 147 483 647) -/
+example : fitsInt false 32 3000000000 = true ∧ fitsInt true 32 3000000000 = false ∧
+    clipInt true 32 3000000000 = 2147483647 ∧ clipInt false 32 (-4) = 0 := by decide
+
 end Cooler.C01
